@@ -35,6 +35,7 @@ def required_cells(tier):
             "tau:negative": 3, "float-controls": 2, "arg_times_compared": 200,
             "tau:far": 6, "end:on-grid": 10,
             "system-used-on-other-window-before": 10,
+            "rate-switched-on": 3, "guessed-parameters": 4,
             "float-controls:near-coincident": 4}
 
 
@@ -160,8 +161,13 @@ def run_case(case):
         rho0 = gen.rand_state(rng, d)
         params = lib.tempo_params(dt, epsrel, None, None, subdiv)
         pa, pb = scen.Probe(), scen.Probe()
-        sa = scen.random_system(gen.rng_for(seeds), d, "td", pa, 0.0)
-        sb = scen.random_system(gen.rng_for(seeds), d, "td", pb, tau)
+        swkw = {}
+        if i % 7 == 4:
+            # a dissipation rate switched on inside the run
+            swkw = dict(n_lind=2, switch_on=start + 1.3 * dt)
+            cells.append("rate-switched-on")
+        sa = scen.random_system(gen.rng_for(seeds), d, "td", pa, 0.0, **swkw)
+        sb = scen.random_system(gen.rng_for(seeds), d, "td", pb, tau, **swkw)
         if warm:
             # the system objects have a past: each was already used on
             # another time window (same dt) before the runs that are compared
@@ -185,6 +191,34 @@ def run_case(case):
         compare_states(da.states, db.states, method)
         compare_times(da.times, db.times, method)
         compare_args(pa, pb, method)
+        if method == "tempo" and i % 2 == 0:
+            # the parameters the library proposes itself for the two frames
+            # (tempo_compute(parameters=None)) are the same
+            import warnings
+            ga = scen.random_system(gen.rng_for(seeds), d, "td", None, 0.0)
+            gb = scen.random_system(gen.rng_for(seeds), d, "td", None, tau)
+            with warnings.catch_warnings():
+                warnings.simplefilter("ignore")
+                bath_g = oqupy.Bath(oper, corr)
+                p_a = oqupy.guess_tempo_parameters(
+                    bath=bath_g, start_time=start, end_time=start + 3.0,
+                    system=ga["oq"], tolerance=1e-2)
+                p_b = oqupy.guess_tempo_parameters(
+                    bath=bath_g, start_time=start + tau,
+                    end_time=start + tau + 3.0, system=gb["oq"],
+                    tolerance=1e-2)
+            cells.append("guessed-parameters")
+            if abs(p_a.dt - p_b.dt) > 1e-9 * p_a.dt or \
+                    p_a.dkmax != p_b.dkmax or \
+                    abs(p_a.epsrel - p_b.epsrel) > 1e-9 * p_a.epsrel:
+                violations.append({
+                    "what": f"guess_tempo_parameters proposes (dt, dkmax, "
+                            f"epsrel) = ({p_a.dt}, {p_a.dkmax}, "
+                            f"{p_a.epsrel}) in the original frame and "
+                            f"({p_b.dt}, {p_b.dkmax}, {p_b.epsrel}) in the "
+                            f"frame shifted by tau={tau}",
+                    "mechanism": "guessed-parameters-frame-dependent",
+                    "detail": {}})
         # non-triviality: freezing the time dependence changes the result
         sc = scen.random_system(gen.rng_for(seeds), d, "td", None, 1e3)
         dc = oqupy.compute_dynamics(sc["oq"], rho0, dt=dt, num_steps=nsteps,
